@@ -59,7 +59,7 @@ static void bytes(byte* d, unsigned n) { for(unsigned i = 0; i < n; ++i) d[i] = 
 static bool oneOp(Buffer& a, Model& ma, Buffer& b, Model& mb)
 {
   byte d[4];
-  unsigned op = vf_pick(17);
+  unsigned op = vf_pick(19);
   switch(op)
   {
   case 0: return false;
@@ -80,6 +80,8 @@ static bool oneOp(Buffer& a, Model& ma, Buffer& b, Model& mb)
   case 13: { unsigned off = vf_pick(EXTN + 1); unsigned len = vf_pick(EXTN - off + 1); a.attach(g_ext + off, len); ma.n = 0; ma.append(g_ext + off, len); break; }
   case 14: { a.append(b); ma.append(mb.v, mb.n); for(unsigned i = 0; i < mb.n; ++i) ma.unspec[ma.n - mb.n + i] = mb.unspec[i]; break; }
   case 15: { Model t = mb; a.prepend(b); ma.prepend(t.v, t.n); for(unsigned i = 0; i < t.n; ++i) ma.unspec[i] = t.unspec[i]; break; }
+  case 17: { Model t = ma; if(2 * t.n > CAPM) break; a.append(a); ma.append(t.v, t.n); for(unsigned i = 0; i < t.n; ++i) ma.unspec[t.n + i] = t.unspec[i]; break; }      // the argument is the buffer itself
+  case 18: { Model t = ma; if(2 * t.n > CAPM) break; a.prepend(a); ma.prepend(t.v, t.n); for(unsigned i = 0; i < t.n; ++i) ma.unspec[i] = t.unspec[i]; break; }
   case 16: { bool eq = a == b; bool meq = ma.n == mb.n; bool anyUnspec = false;
              if(meq) for(unsigned i = 0; i < ma.n; ++i) { meq = meq & (ma.v[i] == mb.v[i]); anyUnspec = anyUnspec | ma.unspec[i] | mb.unspec[i]; }
              if(!anyUnspec) { vf_assert(eq == meq, "operator== agrees with model"); vf_assert((a != b) == !eq, "operator!= is the negation"); } break; }
@@ -141,6 +143,44 @@ extern "C" int step()
       if(!oneOp(a, ma, b, mb)) break;
       check(a, ma, "a"); check(b, mb, "b");
     }
+  }
+  vf_free(g_ext);
+  vf_reach("end");
+  return 0;
+}
+
+// the buffer itself (or a range of its own bytes) as the argument of append / prepend / assign, from every owned window of a
+// larger capacity (in-place shift, compaction and reallocation branches)
+#ifndef VF_CAPS
+#define VF_CAPS 6
+#endif
+extern "C" int self_args()
+{
+  setupExt();
+  {
+    Buffer a; Model ma;
+    unsigned c = vf_pick(VF_CAPS + 1);
+    unsigned s = vf_pick(c + 1);
+    unsigned e = s + vf_pick(c - s + 1);
+    a.buffer = (byte*)new char[c + 1];
+    a._capacity = c;
+    a.bufferStart = a.buffer + s; a.bufferEnd = a.buffer + e;
+    for(unsigned i = s; i < e; ++i) { byte x = vf_u8(); a.buffer[i] = x; ma.append(&x, 1); }
+    *a.bufferEnd = 0;
+    Model t = ma;
+    unsigned op = vf_pick(5);
+    if(op == 0) { a.append(a); ma.append(t.v, t.n); }
+    else if(op == 1) { a.prepend(a); ma.prepend(t.v, t.n); }
+    else if(op == 2) { a = a; }
+    else
+    {
+      // a range of its own bytes
+      unsigned from = vf_pick(t.n + 1), len = vf_pick(t.n - from + 1);
+      const byte* p = (const byte*)a + from;
+      if(op == 3) { a.append(p, len); ma.append(t.v + from, len); }
+      else { a.prepend(p, len); ma.prepend(t.v + from, len); }
+    }
+    check(a, ma, "a");
   }
   vf_free(g_ext);
   vf_reach("end");
